@@ -135,6 +135,7 @@ package pipeline
 //@     pure
 
 //@ func (*Batch).reset
+//@   option check-nil yes
 //@   modifies b.events, b.eventsSize, b.status, b.hasIterableEvents, b.startTime
 //@   ensures len(b.events) == 0 && b.status == BatchStatusNotReady && b.eventsSize == 0 && !b.hasIterableEvents
 
@@ -160,12 +161,14 @@ package pipeline
 //@   invariant b.commitSeq >= 0
 
 //@ func (*Event).IsChildParentKind
+//@   option check-nil yes
 //@   pure
 //@   ensures result == (e.kind == eventKindChildParent)
 
 // updateStatus: the exact decision table (count, bytes, age, empty).
 
 //@ func (*Batch).updateStatus
+//@   option check-nil yes
 //@   ghost age int = 0
 //@   modifies b.status
 //@   ensures len(b.events) == 0 ==> result == BatchStatusNotReady && b.status == old(b.status)
@@ -179,6 +182,7 @@ package pipeline
 //@     set age := d
 
 //@ func (*Batch).append
+//@   option check-nil yes
 //@   requires e != nil
 //@   modifies b.hasIterableEvents, b.events, b.eventsSize, b.events[:cap(b.events)]
 //@   ensures len(b.events) == old(len(b.events)) + 1 && b.eventsSize == old(b.eventsSize) + e.Size
@@ -190,6 +194,7 @@ package pipeline
 // it: non-negative limits, at least one set) is assumed at the receive.
 
 //@ func (*Batcher).getBatch
+//@   option check-nil yes
 //@   requires held(b.mu)
 //@   requires b.batch != nil ==> b.batch.maxSizeCount >= 0 && b.batch.maxSizeBytes >= 0
 //@   requires b.batch != nil && b.batch.maxSizeCount != 0 ==> len(b.batch.events) < b.batch.maxSizeCount
@@ -214,6 +219,7 @@ package pipeline
 // next sequence number.
 
 //@ func (*Batcher).trySendBatchAndUnlock
+//@   option check-nil yes
 //@   ghost lastSize int
 //@   releases b.mu
 //@   requires batch != nil && batch == b.batch && b.outSeq >= 0 && lastSize >= 0 && !b.shouldStop
@@ -237,6 +243,7 @@ package pipeline
 // cannot postpone the time-out flush.
 
 //@ func (*Batcher).Add
+//@   option check-nil yes
 //@   requires event != nil && event.Size >= 0
 //@   bind trySendBatchAndUnlock lastSize := event.Size
 //@   ensures !held(b.mu)
@@ -249,6 +256,7 @@ package pipeline
 //@   assert at "b.trySendBatchAndUnlock(batch)" gcnt > 0 ==> batch.startTime.wall == gwall && batch.startTime.ext == gext
 
 //@ func (*Batcher).heartbeat
+//@   option check-nil yes
 //@   bind trySendBatchAndUnlock lastSize := 0
 //@   ghost ncheck int = 0
 //@   ghost nsleep int = 0
@@ -275,6 +283,7 @@ package pipeline
 // then lets the next batch go.
 
 //@ func (*Batcher).commitBatch
+//@   option check-nil yes
 //@   ghost ncommit int = 0
 //@   requires batch != nil && batch.seq >= 0
 //@   ensures !held(b.seqMu)
@@ -305,6 +314,7 @@ package pipeline
 // that never passes through it blocks every later batch (C02, C04, C08).
 
 //@ func (*Batcher).work
+//@   option check-nil yes
 //@   ghost sent bool = false
 //@   ghost ngot int = 0
 //@   ghost ncommit int = 0
@@ -328,6 +338,7 @@ package pipeline
 //@     preserves Batcher
 
 //@ func (*Batcher).Stop
+//@   option check-nil yes
 //@   ensures !held(b.mu)
 //@   callee Wait()
 //@     pure
@@ -392,6 +403,7 @@ package pipeline
 // that still has events is charged again.
 
 //@ func (*stream).tryDetach
+//@   option check-nil yes
 //@   ghost ncharged int = 0
 //@   requires held(s.mu)
 //@   ensures held(s.mu)
@@ -410,6 +422,7 @@ package pipeline
 // commit: the stream's commit sequence never decreases; a detaching stream is released here.
 
 //@ func (*stream).commit
+//@   option check-nil yes
 //@   ghost c0 int = 0
 //@   requires event != nil
 //@   ensures !held(s.mu)
@@ -424,12 +437,14 @@ package pipeline
 // protocol; they are proved unreachable under the stated preconditions.
 
 //@ func (*stream).leave
+//@   option check-nil yes
 //@   option allow-exit yes
 //@   requires held(s.mu)
 //@   ensures held(s.mu)
 //@   ensures s.isDetaching ==> s.isAttached
 
 //@ func (*stream).instantGet
+//@   option check-nil yes
 //@   option allow-exit yes
 //@   ensures !held(s.mu)
 //@   callee get()
@@ -443,6 +458,7 @@ package pipeline
 // its unit.
 
 //@ func (*eventPool).wakeupWaiters
+//@   option check-nil yes
 //@   ghost nb int = 0
 //@   setat "time.Sleep(p.wakeupInterval)" nb := 0
 //@   loop 1 iter-ensures waiters > 0 && eventsAvailable ==> nb == 1
@@ -454,10 +470,12 @@ package pipeline
 //@     pure
 
 //@ func (*lowMemoryEventPool).eventsAvailable
+//@   option check-nil yes
 //@   pure
 //@   ensures result == (p.inUseEvents.v < p.capacity)
 
 //@ func (*lowMemoryEventPool).wakeupWaiters
+//@   option check-nil yes
 //@   ghost nb int = 0
 //@   setat "time.Sleep(p.wakeupInterval)" nb := 0
 //@   loop 1 iter-ensures waiters > 0 && eventsAvailable ==> nb == 1
@@ -503,6 +521,7 @@ package pipeline
 //@     pure
 
 //@ func (*lowMemoryEventPool).back
+//@   option check-nil yes
 //@   ghost ndec int = 0
 //@   ghost nb int = 0
 //@   requires event != nil
@@ -524,6 +543,7 @@ package pipeline
 //@     pure
 
 //@ func (*lowMemoryEventPool).inUse
+//@   option check-nil yes
 //@   pure
 //@   ensures result <= p.capacity
 
@@ -556,6 +576,7 @@ package pipeline
 // sample watcher is fed before).
 
 //@ func (*processor).doActions
+//@   option check-nil yes
 //@   option allow-exit yes
 //@   ghost nback int = 0
 //@   ghost res int = 0
@@ -600,6 +621,7 @@ package pipeline
 // unlock event stops the sequence instead); a non-passed event never is.
 
 //@ func (*processor).processSequence
+//@   option check-nil yes
 //@   ghost nout int = 0
 //@   ghost passed bool = false
 //@   ghost unlock bool = false
@@ -629,6 +651,7 @@ package pipeline
 // nil Root.  (Stated as: busy at its index, or no action is busy at all.)
 
 //@ func (*processor).processEvent
+//@   option check-nil yes
 //@   ghost evstream int = 0
 //@   requires event != nil && event.action >= 0
 //@   requires event.kind != EventKindTimeout
@@ -655,6 +678,7 @@ package pipeline
 // Propagate: a held event continues with the action after the one that held it.
 
 //@ func (*processor).Propagate
+//@   option check-nil yes
 //@   ghost a0 int = 0
 //@   requires event != nil && event.action >= 0 && event.kind != EventKindTimeout
 //@   requires event.action < len(p.busyActions)
@@ -720,6 +744,7 @@ package pipeline
 // the main output; Out goes to the main output.
 
 //@ func (*Router).Fail
+//@   option check-nil yes
 //@   ghost ndq int = 0
 //@   ensures (ndq == 1) == old(r.deadQueue != nil) && ndq <= 1
 //@   callee Out(e)
@@ -727,6 +752,7 @@ package pipeline
 //@     set ndq := ndq + 1
 
 //@ func (*Router).IsDeadQueueAvailable
+//@   option check-nil yes
 //@   pure
 //@   ensures result == (r.deadQueue != nil)
 
@@ -735,6 +761,7 @@ package pipeline
 // its retries during shutdown must still find a dead queue that accepts events.
 
 //@ func (*Router).Stop
+//@   option check-nil yes
 //@   ghost nstop int = 0
 //@   assert at "r.output.Stop()" nstop == 0
 //@   assert at "r.deadQueue.Stop()" nstop == 1
@@ -757,6 +784,7 @@ package pipeline
 //@     set nstart := nstart + 1
 
 //@ func (*Router).Out
+//@   option check-nil yes
 //@   ghost nout int = 0
 //@   ensures nout == 1
 //@   callee Out(e)
@@ -774,6 +802,7 @@ package pipeline
 // exists, re(k) = its regexp matches, val(k) = valueExists on its value.
 
 //@ func (*MatchCondition).valueExists
+//@   option check-nil yes
 //@   ghost w int = 0
 //@   pure
 //@   setat "if match {" w := rangeindex
@@ -846,6 +875,7 @@ package pipeline
 // the event is not a split parent, on that very event.
 
 //@ func (*Batch).ForEach
+//@   option check-nil yes
 //@   ghost lastIdx int = -1
 //@   loop 1 invariant lastIdx <= rangeindex && rangeindex < len(b.events) && b.events == old(b.events)
 //@   ghost parent bool = false
@@ -870,6 +900,7 @@ package pipeline
 // the map when the event is reused and the same stream is created twice.
 
 //@ func (*streamer).getStream
+//@   option check-nil yes
 //@   option allow-exit yes
 //@   callee newStream(name, id, sr) (r)
 //@     requires uf_viewref(name) == 0
@@ -884,6 +915,7 @@ package pipeline
 // leave a charged stream unattended while processors sleep in joinStream.
 
 //@ func (*streamer).makeCharged
+//@   option check-nil yes
 //@   ghost nsig int = 0
 //@   requires stream != nil
 //@   ensures nsig == 1
@@ -898,6 +930,7 @@ package pipeline
 // committed without ever being sent).
 
 //@ func (*Event).reset
+//@   option check-nil yes
 //@   modifies e.Buf, e.next, e.action, e.stream, e.children, e.kind
 //@   ensures e.kind == EventKindRegular && e.action == 0 && len(e.Buf) == 0 && e.next == nil && e.stream == nil && len(e.children) == 0
 
@@ -990,6 +1023,7 @@ package pipeline
 // and takes it out again before blocking anew: an assumption, listed).
 
 //@ func (*streamer).makeBlocked
+//@   option check-nil yes
 //@   requires stream != nil
 //@   requires !held(s.blockedMu)
 //@   assume at "stream.blockIndex = len(s.blocked)" forall i :: 0 <= i && i < len(s.blocked) ==> s.blocked[i] != stream
@@ -1000,10 +1034,12 @@ package pipeline
 // again - in particular the stream moved into the hole carries its new index.
 
 //@ func (*streamer).isBlocked
+//@   option check-nil yes
 //@   requires stream != nil && !held(s.blockedMu)
 //@   ensures !held(s.blockedMu) && result == (stream.blockIndex != -1)
 
 //@ func (*streamer).resetBlocked
+//@   option check-nil yes
 //@   option allow-exit yes
 //@   requires stream != nil
 //@   requires !held(s.blockedMu)
@@ -1016,6 +1052,7 @@ package pipeline
 // and both counters address it modulo capacity.
 
 //@ func newEventPool
+//@   option check-nil yes
 //@   requires capacity >= 0
 //@   ensures result != nil && result.capacity == capacity
 //@   ensures len(result.events) == capacity && len(result.free1) == capacity && len(result.free2) == capacity
@@ -1040,14 +1077,17 @@ package pipeline
 // either the time-out loop ran over the whole busy table, or no action is busy.
 
 //@ func (*Event).SetChildParentKind
+//@   option check-nil yes
 //@   modifies e.kind
 //@   ensures e.kind == eventKindChildParent
 
 //@ func (*Event).SetChildKind
+//@   option check-nil yes
 //@   modifies e.kind
 //@   ensures e.kind == eventKindChild
 
 //@ func (*processor).Spawn
+//@   option check-nil yes
 //@   option allow-exit yes
 //@   requires parent != nil && parent.action >= 0
 //@   requires len(p.busyActions) == len(p.actions) && len(p.actionInfos) == len(p.actions)
@@ -1092,6 +1132,7 @@ package pipeline
 // before the queue is looked at.  It returns the head of the queue, never nil.
 
 //@ func (*stream).blockGet
+//@   option check-nil yes
 //@   option allow-exit yes
 //@   ghost nblk int = 0
 //@   ghost stamped bool = false
@@ -1119,6 +1160,7 @@ package pipeline
 // attach: a processor takes an unowned, non-empty stream; afterwards it is the owner.
 
 //@ func (*stream).attach
+//@   option check-nil yes
 //@   option allow-exit yes
 //@   ensures !held(s.mu)
 
@@ -1136,6 +1178,7 @@ package pipeline
 //@   invariant forall i :: 0 <= i && i < len(s.charged) ==> s.charged[i] != nil
 
 //@ func (*streamer).joinStream
+//@   option check-nil yes
 //@   ghost stopping bool = false
 //@   ghost natt int = 0
 //@   ensures !held(s.chargedMu)
@@ -1155,6 +1198,7 @@ package pipeline
 // marked busy: marking an action twice or releasing a free one changes nothing.
 
 //@ func (*processor).tryMarkBusy
+//@   option check-nil yes
 //@   option allow-exit yes
 //@   requires 0 <= index && index < len(p.busyActions)
 //@   modifies p.busyActions[index], p.busyActionsTotal
@@ -1162,6 +1206,7 @@ package pipeline
 //@   ensures p.busyActionsTotal == old(p.busyActionsTotal) + ite(old(p.busyActions[index]), 0, 1)
 
 //@ func (*processor).tryResetBusy
+//@   option check-nil yes
 //@   option allow-exit yes
 //@   requires 0 <= index && index < len(p.busyActions)
 //@   modifies p.busyActions[index], p.busyActionsTotal
@@ -1175,6 +1220,7 @@ package pipeline
 // releases it) or an unlock event asks the processor to stop.
 
 //@ func (*processor).process
+//@   option check-nil yes
 //@   ghost nact int = 0
 //@   requires len(p.busyActions) == len(p.actions) && len(p.actionInfos) == len(p.actions)
 //@   loop 1 invariant nact == 0 && len(p.busyActions) == len(p.actions) && len(p.actionInfos) == len(p.actions)
@@ -1291,6 +1337,7 @@ package pipeline
 //@     set ngo := ngo + 1
 
 //@ func (*Batcher).Start
+//@   option check-nil yes
 //@   ghost nw int = 0
 //@   ghost nhb int = 0
 //@   ghost nadd int = 0
@@ -1314,6 +1361,7 @@ package pipeline
 // is the precondition of process / doActions / Propagate, proved here rather than assumed.
 
 //@ func newProcessor
+//@   option check-nil yes
 //@   pure
 //@   ensures result != nil && fresh(result)
 //@   ensures len(result.actions) == 0 && len(result.actionInfos) == 0 && len(result.busyActions) == 0 && result.busyActionsTotal == 0
@@ -1344,6 +1392,7 @@ package pipeline
 //@     pure
 
 //@ func (*Pipeline).initProcs
+//@   option check-nil yes
 //@   option allow-panic yes
 //@   ensures forall k :: 0 <= k && k < len(p.Procs) ==> p.Procs[k] != nil && len(p.Procs[k].busyActions) == len(p.Procs[k].actions) && len(p.Procs[k].actionInfos) == len(p.Procs[k].actions)
 //@   ensures p.router == old(p.router) && p.streamer == old(p.streamer) && p.input == old(p.input) && p.decoderType == old(p.decoderType) && p.useSpread == old(p.useSpread)
@@ -1362,6 +1411,7 @@ package pipeline
 // processor is built by newProc (tables consistent), listed, and started.
 
 //@ func (*Pipeline).expandProcs
+//@   option check-nil yes
 //@   option allow-panic yes
 //@   ghost nnew int = 0
 //@   ghost nstart int = 0
@@ -1390,6 +1440,7 @@ package pipeline
 // the order and deadlocks).
 
 //@ func (*streamer).heartbeat
+//@   option check-nil yes
 //@   ghost ntry int = 0
 //@   ghost nsnap int = 0
 //@   loop 1 invariant !held(s.blockedMu)
